@@ -54,8 +54,26 @@ def check(m, run):
 
 
 def _check_syntactic(m, run, funcs, summ, contracts):
-    n = rl.ly1_canonical(m, run, funcs)
     from .. import skel_drivers as _sd
+    # how set_ctrlpts of a surface fills the 2-D view is decided on real surfaces (KD5 / GV2: [u][v] of the view is the point stored at
+    # v + size_v * u); the stride rule corroborates for that method and decides the others
+    kd_keys = ('BSpline.Surface.set_ctrlpts',)
+    n_kd = len(run.obs)
+    _sd.kd5(m, run)
+    kd_ok = all(o.ok for o in run.obs[n_kd:])
+    with run.corroborating(kd_ok, 'KD5/GV2', rules=(), only=lambda o: o.rule.startswith('LY1')):
+        rl.ly1_canonical(m, run, [f for f in funcs if f.key in kd_keys])
+    # the evaluators are decided on symbolic nets (EVX for evaluate, A36S / A34S for derivatives): the stride rule corroborates there
+    ev_funcs = [f for f in funcs if f.mod == 'evaluators']
+    n_ev = len(run.obs)
+    if ev_funcs:
+        _sd.evx(m, run)
+        _sd.a36s(m, run)
+        _sd.a34s(m, run)
+    ev_ok = bool(ev_funcs) and all(o.ok for o in run.obs[n_ev:])
+    with run.corroborating(ev_ok, 'EVX/A36S/A34S', rules=(), only=lambda o: o.rule.startswith('LY1')):
+        rl.ly1_canonical(m, run, ev_funcs)
+    n = rl.ly1_canonical(m, run, [f for f in funcs if f.key not in kd_keys and f.mod != 'evaluators'])
     n1 = len(run.obs)
     _sd.mg2(m, run)
     mg_ok = all(o.ok for o in run.obs[n1:])
@@ -96,9 +114,8 @@ def _check_syntactic(m, run, funcs, summ, contracts):
     with run.corroborating(ex_ok, 'EX2', rules=('AX4.axis-map-single-valued', 'LY1.index-matches-layout')):
         ld.extract_curves_rules(m, run, summ)
     n3 = len(run.obs)
-    _sd.kd5(m, run)
     _sd.ec2(m, run)        # extracted shapes are independent objects
-    gv_ok = all(o.ok for o in run.obs[n3:])
+    gv_ok = kd_ok and all(o.ok for o in run.obs[n3:])
     with run.corroborating(gv_ok, 'KD5/GV2', rules=('LY2.grid-view', 'LY1.canonical-stride', 'LY3.list-matches-declared-sizes')):
         grid_view(m, run, summ)
     from . import c09
